@@ -1,6 +1,7 @@
 package main
 
 import (
+	"encoding/hex"
 	"fmt"
 	"go/types"
 	"math/big"
@@ -228,6 +229,26 @@ func init() {
 	}
 	I[ethC+".BytesToHash"] = func(e *Exec, fn *ssa.Function, a []Value) Value { return ArrayV{A: padLeft(sliceTerms(a[0]), 32)} }
 	I[ethC+".BytesToAddress"] = func(e *Exec, fn *ssa.Function, a []Value) Value { return ArrayV{A: padLeft(sliceTerms(a[0]), 20)} }
+	hexTo := func(n int) Intrinsic {
+		return func(e *Exec, fn *ssa.Function, a []Value) Value {
+			str := e.concreteStr(a[0], "hex string")
+			str = strings.TrimPrefix(strings.TrimPrefix(str, "0x"), "0X")
+			if len(str)%2 == 1 {
+				str = "0" + str
+			}
+			raw, err := hex.DecodeString(str)
+			if err != nil {
+				raw = nil
+			}
+			bs := make([]*Term, len(raw))
+			for i, b := range raw {
+				bs[i] = BVU(8, uint64(b))
+			}
+			return ArrayV{A: padLeft(bs, n)}
+		}
+	}
+	I[ethC+".HexToHash"] = hexTo(32)
+	I[ethC+".HexToAddress"] = hexTo(20)
 	arrBytes := func(e *Exec, fn *ssa.Function, a []Value) Value { return mkByteSlice(sliceTerms(a[0])) }
 	I["("+ethC+".Hash).Bytes"] = arrBytes
 	I["("+ethC+".Address).Bytes"] = arrBytes
